@@ -343,11 +343,6 @@ func (c *minecraftConn) BufferPacket(packet proto.Packet) (err error) {
 	return c.bufferPacket(packet, true)
 }
 
-// bufferNoQueue is a helper func to buffer a packet without queuing it.
-func (c *minecraftConn) bufferNoQueue(packet proto.Packet) error {
-	return c.bufferPacket(packet, false)
-}
-
 func (c *minecraftConn) bufferPacket(packet proto.Packet, canQueue bool) (err error) {
 	if Closed(c) {
 		return ErrClosedConn
@@ -570,8 +565,16 @@ func (c *minecraftConn) ensurePlayPacketQueue(newState states.State) {
 
 	// Remove the play packet queue if it exists
 	if c.playPacketQueue != nil {
-		if err := c.playPacketQueue.ReleaseQueue(c.bufferNoQueue, c.Flush); err != nil {
+		// The caller holds c.mu (and usually the session handler lock), which closing the
+		// connection needs as well: write without the close-on-error helpers and close
+		// from another goroutine if the release fails.
+		buffer := func(packet proto.Packet) error {
+			_, err := c.wr.WritePacket(packet)
+			return err
+		}
+		if err := c.playPacketQueue.ReleaseQueue(buffer, c.wr.Flush); err != nil {
 			c.log.Error(err, "error releasing play packet queue")
+			go c.closeOnWriteErr(err, "releasePlayPacketQueue")
 		}
 		c.playPacketQueue = nil
 	}
